@@ -8,7 +8,7 @@ conditional stack; the functions that consume the rest are cut and return "resyn
 one transition of the state machine, the obligations are its transition table (C11 6.10.1/6.10.2).
 The option plumbing of main.c is evaluated over the finite option table (one argv per option).
 """
-from ..interp import Obj, Sym, Term, View, Cell, Arr, Lin, NoReturn, Infeasible, Unsupported, _Ref, _ValPlace, vkey
+from ..interp import Obj, Sym, Term, View, Cell, Arr, Lin, NoReturn, Infeasible, Unsupported, _Ref, _ValPlace
 from ..build import AnalysisBroken
 from ..lib_c10 import (PPInterp, Toks, register_nested_enums, explore_directive, outcome, calls, is_resync,
                        idx_of, truth_in, settle, m_equal, m_strndup, hook, cut_tok, resync, set_out,
@@ -476,7 +476,6 @@ def r102(P, u, T, rep, dres):
     want = {
         'skip_cond_incl2': lambda d: 'nest' if d in OPENERS else ('close' if d == 'endif' else 'pass'),
         'skip_cond_incl': lambda d: 'nest' if d in OPENERS else ('stop' if d in CLOSERS else 'pass'),
-        'detect_include_guard': lambda d: 'nest' if d in OPENERS else 'pass',
     }
     says = {
         'nest': 'treats it as the opener of a nested conditional', 'close': 'treats it as the end of the nested conditional',
@@ -487,10 +486,7 @@ def r102(P, u, T, rep, dres):
         where = '%s:%d' % (U, u.fn(fn).line)
         for d in universe:
             try:
-                if fn == 'detect_include_guard':
-                    cls = _guard_class(P, u, T, d)
-                else:
-                    cls, _ = _scanner_class(P, u, T, fn, d)
+                cls, _ = _scanner_class(P, u, T, fn, d)
             except Unsupported as e:
                 rep.undecided('R10.2', '%s:%s:scan/%s' % (U, fn, d), 'cannot interpret %s on `#%s`: %s' % (fn, d, e))
                 continue
@@ -534,10 +530,7 @@ def r102(P, u, T, rep, dres):
         for variant in ('word', 'midline'):
             for d in COND:
                 try:
-                    if fn == 'detect_include_guard':
-                        cls = _guard_class(P, u, T, d, variant)
-                    else:
-                        cls, _ = _scanner_class(P, u, T, fn, d, variant)
+                    cls, _ = _scanner_class(P, u, T, fn, d, variant)
                 except Unsupported as e:
                     rep.undecided('R10.2', '%s:%s:%s/%s' % (U, fn, variant, d), 'cannot interpret %s: %s' % (fn, e))
                     continue
@@ -686,10 +679,8 @@ def r104(P, u, T, rep, dres):
                 fails.setdefault('diagnoses-stray', ('`#%s` with no open conditional: `%s` is read through the empty (NULL) conditional stack before the stack is tested '
                                                      '(crash instead of the stray-#%s diagnostic)' % (d, nd[0][1], d), 'empty-stack', ctx.trail))
                 covered.add('empty-stack')
+            # an arm that never looked at the stack behaves the same in every stack state (see _states_for)
             cells = [ctx.ci_cell, ctx.ci_init['included'], ctx.ci_init['ctx']] if hasattr(ctx, 'ci_cell') else []
-            if not cells:
-                # the arm never looked at the stack: it behaves the same in every state
-                cells = []
             vcell = evals[0][4].cell if evals else None
             mcell = finds[0][4].cell if finds else None
             extra = [c for c in (vcell, mcell) if c is not None]
@@ -794,8 +785,6 @@ def _judge(it, ctx, o, d, st, E, fails, off, evals, finds):
     # stack
     g = ctx.globals.get('cond_incl')
     g = settle(it, g)
-    if hasattr(ctx, 'ci_cell'):
-        old = ctx.ci.fields if False else None
     if x['stack'] == 'pushed':
         if len(pushes) != 1:
             fail('pushes-once', 'push_cond_incl is called %d times; every opener must push exactly one entry, otherwise the matching #endif pops the wrong conditional' % len(pushes))
